@@ -276,8 +276,15 @@ func (b *Builder) MayMutateOperand(c *ssa.CallCommon, i int) bool {
 	if (InRepo(f) || analysedDep(f)) && f.Blocks != nil {
 		return b.repoMut(f)[i]
 	}
+	if InRepo(f) && f.Blocks == nil {
+		return true // assembly routine: any pointer argument may be written through
+	}
 	if f.Signature.Recv() != nil && i == 0 {
 		if _, ok := f.Signature.Recv().Type().(*types.Pointer); ok {
+			// a compiled *regexp.Regexp is immutable through its matching methods (documented safe for concurrent use)
+			if typeName(f.Signature.Recv().Type()) == "*regexp.Regexp" && f.Name() != "Longest" {
+				return false
+			}
 			return !pureRecv[f.Name()]
 		}
 		return false
